@@ -1,7 +1,7 @@
 #!/bin/bash
 # h.sh PROP HARNESS SECS : compile + run one harness verbosely with a wall limit; prints summary
 cd /verif
-python3 - "$1" "$2" <<'PY' > /tmp/h_cfg.txt
+python3 - "$1" "$2" /tmp/h_cfg_$$.json <<'PY' > /tmp/h_cfg_$$.txt
 import sys, json
 sys.path.insert(0,'/verif')
 import props, check
@@ -9,13 +9,13 @@ P=props.PROPS[sys.argv[1]]
 h=[x for x in P['harnesses'] if x['name']==sys.argv[2]][0]
 tu=check.compile_tu(h['src'], h.get('std','c++17'), bool(h.get('exc')), list(h.get('defs',[])), sys.argv[1])
 if not tu['ok']: print('COMPILE FAIL', tu['err'][-2000:]); sys.exit(1)
-json.dump({k:v for k,v in h.items() if not k.startswith('_')}, open('/tmp/h_cfg.json','w'))
+json.dump({k:v for k,v in h.items() if not k.startswith('_')}, open(sys.argv[3],'w'))
 print(tu['ll'])
 PY
-LL=$(tail -1 /tmp/h_cfg.txt)
-case "$LL" in *.ll) ;; *) cat /tmp/h_cfg.txt; exit 1;; esac
+LL=$(tail -1 /tmp/h_cfg_$$.txt)
+case "$LL" in *.ll) ;; *) cat /tmp/h_cfg_$$.txt; exit 1;; esac
 cd /verif/engine
-timeout $3 python3-vt explore.py $LL --cfg /tmp/h_cfg.json -v > /tmp/h_out.log 2>&1
+timeout $3 python3-vt explore.py $LL --cfg /tmp/h_cfg_$$.json -v > /tmp/h_out_$$.log 2>&1
 echo rc=$?
-grep -E "^step" /tmp/h_out.log | tail -2
-grep -vE '^\s*"?-?[0-9]+"?,?$|^step' /tmp/h_out.log | grep -E '"verdict"|"name"|"result"|solver_s|reason|build_s|"ins"|violated|confirmed|Error|Traceback' | cut -c1-300 | head -40
+grep -E "^step" /tmp/h_out_$$.log | tail -2
+grep -vE '^\s*"?-?[0-9]+"?,?$|^step' /tmp/h_out_$$.log | grep -E '"verdict"|"name"|"result"|solver_s|reason|build_s|"ins"|violated|confirmed|Error|Traceback' | cut -c1-300 | head -40
